@@ -191,8 +191,14 @@ func (r *FeatureLocal) addPendingApproval(msg *api.Message) {
 
 	newTimer := time.AfterFunc(r.writeTimeout, func() {
 		r.muxResponseCB.Lock()
+		_, pending := r.pendingWriteApprovals[ski][*msg.RequestHeader.MsgCounter]
 		delete(r.pendingWriteApprovals[ski], *msg.RequestHeader.MsgCounter)
 		r.muxResponseCB.Unlock()
+
+		// the write was already handled or its connection was removed in the meantime
+		if !pending {
+			return
+		}
 
 		err := model.NewErrorTypeFromString("write not approved in time by application")
 		_ = msg.FeatureRemote.Device().Sender().ResultError(msg.RequestHeader, r.Address(), err)
@@ -264,6 +270,11 @@ func (r *FeatureLocal) SetWriteApprovalTimeout(duration time.Duration) {
 func (r *FeatureLocal) CleanWriteApprovalCaches(ski string) {
 	r.muxResponseCB.Lock()
 	defer r.muxResponseCB.Unlock()
+
+	// the connection is gone, no timeout result may be sent anymore
+	for _, timer := range r.pendingWriteApprovals[ski] {
+		timer.Stop()
+	}
 
 	delete(r.pendingWriteApprovals, ski)
 	delete(r.writeApprovalReceived, ski)
